@@ -129,6 +129,7 @@ def build(tier="quick", seed=0):
     helpers(b, levels)
     for l in range(2, 8):
         b.replayer(f"TidalPy/tides/eccentricity_funcs/orderl{l}.py::*::G2*", _replayer(l))
+    b.replayer("*mode_calc_helper*", _replay_helper)
     b.assume("hand-typed decimal coefficients are compared with the exact rationals with tolerance 1e-13 relative per coefficient")
     b.assume("modes with |q| > N/2 + 2 are outside the enumerated window (their squared Hansen coefficient starts at e^(2|q|) > e^N)")
     b.trust("spec function contracts/spec_hansen.py (exact rational Hansen series) after its self-consistency lemmas (closed form of the k = 0 coefficients, Kaula's printed low-order table)")
@@ -217,3 +218,36 @@ def _replayer(l):
         rec["confirmed"] = (got is None and exp != 0) or (got is not None and abs(got - exp) > 1e-9 * max(abs(exp), 1e-30) and ":absent" not in ob.oid) or (":absent" in ob.oid and exp != 0)
         return rec
     return rp
+
+
+def _replay_helper(ob, res):
+    """native: the multi-degree lookup helper must return exactly the per-degree tables (keys and values) for every l <= L"""
+    import re
+    from tpv import native
+    m = re.search(r"eccentricity_truncation_(\d+)_maxl_(\d+)", ob.oid)
+    if not m:
+        return dict(replayed=False, reason="no (truncation, max l) in the obligation id")
+    N, L = int(m.group(1)), int(m.group(2))
+    code = r'''
+import numpy as np
+from TidalPy.tides.modes.mode_calc_helper import eccentricity_functions_lookup
+from TidalPy.tides.eccentricity_funcs import eccentricity_truncations
+N, L = args["N"], args["L"]
+e = 0.31
+got = eccentricity_functions_lookup[N][L](e)
+bad = []
+for l in range(2, L + 1):
+    ref = eccentricity_truncations[N][l](e)
+    g = got[l]
+    for p in set(ref) | set(g):
+        rq, gq = dict(ref.get(p, {})), dict(g.get(p, {})) if p in g else {}
+        for q in set(rq) | set(gq):
+            a, c = gq.get(q), rq.get(q)
+            if a is None or c is None or abs(float(a) - float(c)) > 1e-13 * max(abs(float(c)), 1e-300):
+                bad.append([l, int(p), int(q), None if a is None else float(a), None if c is None else float(c)])
+result = dict(bad=bad[:6], n=len(bad))
+'''
+    out = native.run(dict(code=code, args=dict(N=N, L=L)), timeout=900)
+    rec = dict(replayed=True, native=out, what=f"eccentricity_functions_lookup[{N}][{L}] against eccentricity_truncations[{N}][l] at e = 0.31")
+    rec["confirmed"] = bool("result" not in out or out["result"]["n"])
+    return rec
